@@ -519,6 +519,42 @@ def partial_replays(case):
     return n
 
 
+def owed_sig_not_sent(case):
+    """Candidate defect C08-F3 (lnwallet ProcessChanSyncMsg / link.go resolveFwdPkgs, toggleBatchTicker):
+    the forwarder acked the peer's updates with a revoke_and_ack that WAS delivered, its link (or the
+    node) went down before the commit_sig it owes in return was sent (processRemoteCommitSig returns
+    on link quit between the two), and after the reconnect the channel sync finds both sides in sync:
+    nothing is retransmitted and nothing ever triggers the owed signature (the batch ticker only looks
+    at the forwarder's OWN pending updates), so the peer's updates stay uncommitted until the
+    forwarder has an update of its own.  Returns the channels on which exactly this is in the trace."""
+    ev = case["events"]
+    out = []
+    for ch, peer in ((1, "a"), (2, "c")):
+        faults = [i for i, e in enumerate(ev)
+                  if e[0] == "x" and (e[1] == "restart" or (e[1] == "linkrestart" and e[2] == ch))]
+        closing = next((i for i, e in enumerate(ev) if e[0] == "x" and e[1] == "closing"), len(ev))
+        for tf in faults:
+            if tf > closing:
+                break
+            revs = [i for i in range(tf) if ev[i][0] == "s" and ev[i][1] == ch and ev[i][2] == "rev"]
+            if not revs:
+                continue
+            i_rev = revs[-1]
+            signed = any((ev[j][0] == "g" and ev[j][1] == ch) or
+                         (ev[j][0] == "s" and ev[j][1] == ch and ev[j][2] == "sig")
+                         for j in range(i_rev + 1, tf))
+            delivered = any(ev[j][0] == "w" and ev[j][1] == peer and ev[j][2] == ch and ev[j][3] == "rev"
+                            and not ev[j][7] for j in range(i_rev + 1, tf))
+            nxt = next((i for i in faults if i > tf), len(ev))
+            sig_after = any((ev[j][0] == "s" and ev[j][1] == ch and ev[j][2] == "sig")
+                            for j in range(tf + 1, nxt))
+            reest = any(ev[j][0] == "s" and ev[j][1] == ch and ev[j][2] == "reest" for j in range(tf + 1, nxt))
+            if delivered and not signed and reest and not sig_after:
+                out.append(ch)
+                break
+    return out
+
+
 def funds_missing(case):
     """Non-quiescent end state in which value has demonstrably vanished."""
     end = {e["name"]: e for e in case["end"]}
@@ -672,7 +708,15 @@ def run(ctx):
                               signature="threehop %s" % f[0][1][:60])
         elif stuck:
             lost = packet_lost_at_link_stop(c)
-            if sp_variant(c) and not c["quiescent"] and silent_ms(c) >= 2500:
+            owed = owed_sig_not_sent(c) if not c["quiescent"] else []
+            if owed and (silent_ms(c) >= 2500 or not sp_variant(c)):
+                ctx.violation("impl_violates_predicate", "C08_quiescent_balance",
+                              {"case": slim(c), "stop_point": case_sp(c), "channels": owed, "fails": [
+                                  "htlcs left dangling (%s): on channel %s the forwarder's revoke_and_ack was "
+                                  "delivered, its link went down before the commit_sig it owes in return, and after "
+                                  "the reconnect that signature is never sent" % (c["why"], owed)]},
+                              signature="threehop owed-commit-sig-not-sent-after-reconnect")
+            elif sp_variant(c) and not c["quiescent"] and silent_ms(c) >= 2500:
                 # a tiny deterministic scenario with ONE fault and generous timeouts: not resolving is
                 # the "nothing is left dangling" clause itself
                 ctx.violation("impl_violates_predicate", "C08_quiescent_balance",
